@@ -6,9 +6,11 @@ import MesonModel.DepPolicy.Cache
 import MesonModel.Generated.DepCacheTable
 import MesonModel.Version.Model
 import MesonModel.DepPolicy.Wrap
+import MesonModel.DepPolicy.WrapFile
 /- driver commands of area `dep`:
    `seq  wrap_mode|fff|overrides|cache|system|provides|subprojects|requests`  (C10 a)
-   `wrap <config>|<env>|<faults>`                                              (C10 b) -/
+   `wrap <config>|<env>|<faults>`                                              (C10 b)
+   `wraps <files~dirs>|<fs>|<wrapdb>|<merges>|<nopromote>|<queries>`            (C10 d: wrap files → provider tables) -/
 namespace Driver.DepPolicy
 open MesonModel.DepPolicy Driver
 
@@ -187,6 +189,84 @@ def handleWrap (cfg env faults : String) : String :=
 
 end W
 
+/-! ### C10 (d): wrap files → `Resolver` tables -/
+namespace WF
+open MesonModel.DepPolicy.WrapFile
+
+def encI (x : Str) : String := if x.isEmpty then "E" else encodeStr x
+
+def decList (sep : String) (f : String) : List Str := (splitNE sep f).map decItem
+
+def parseListing (f : String) : List Str × List Str :=
+  match f.splitOn "~" with
+  | [a, b] => (decList "," a, decList "," b)
+  | _ => ([], [])
+
+def parseFS (f : String) : FS :=
+  (splitNE ";" f).filterMap (fun e => match e.splitOn "=" with
+    | [p, t] => some (decList "/" p, decItem t)
+    | _ => none)
+
+def parseWrapdb (f : String) : List (Str × List Str × List Str) :=
+  (splitNE ";" f).filterMap (fun e => match e.splitOn ":" with
+    | [n, d, p] => some (decItem n, decList "+" d, decList "+" p)
+    | _ => none)
+
+def parseMerges (f : String) : List (Path × List Str × List Str) :=
+  (splitNE ";" f).filterMap (fun e => match e.splitOn "~" with
+    | [b, fl, dl] => some (decList "/" b, decList "," fl, decList "," dl)
+    | _ => none)
+
+def showOpt : Option Str → String
+  | none => "N"
+  | some x => "S" ++ encodeStr x
+
+def showErrW (e : WErr) : String :=
+  (match e with
+   | .keyError => "ERR:KeyError"
+   | .unsupported => "ERR:unsupported"
+   | .fuel => "ERR:fuel"
+   | _ => "ERR:WrapException")
+
+def showPkg (p : PkgDef) : String :=
+  encI p.name ++ ":" ++ (match p.type with | none => "-" | some t => String.ofList t) ++ ":" ++ encI p.directory ++ ":" ++
+  boolStr p.redirected ++ ":" ++ "+".intercalate (p.providedDeps.map (fun e => encI e.1 ++ "=" ++ showOpt e.2)) ++ ":" ++
+  "+".intercalate (p.providedPrograms.map encI)
+
+def showTable (t : List (Str × PkgDef)) : String :=
+  ";".intercalate (t.map (fun e => encI e.1 ++ ">" ++ encI e.2.name))
+
+def answer (r : Resolver) (q : String) : String :=
+  match q.splitOn ":" with
+  | ["d", n] => let a := findDepProvider r (decItem n); showOpt a.1 ++ "," ++ showOpt a.2
+  | ["v", sp, n] => showOpt (getVarname r (decItem sp) (decItem n))
+  | ["p", ns] => showOpt (findProgramProvider r (decList "+" ns))
+  | ["g", n] => showOpt (getDirectory r (decItem n))
+  | _ => "bad-query"
+
+def mergeAll (fs : FS) (np : Bool) (wrapdb : List (Str × List Str × List Str)) :
+    List (Path × List Str × List Str) → Resolver → Except WErr Resolver
+  | [], r => .ok r
+  | (b, fl, dl) :: rest, r =>
+    match loadAndMerge fs 16 np r b fl dl [] with
+    | .error e => .error e
+    | .ok r' => mergeAll fs np wrapdb rest r'
+
+def handleWraps (listing fsF wrapdbF mergesF np queries : String) : String :=
+  let (files, dirs) := parseListing listing
+  let fs := parseFS fsF
+  let wrapdb := parseWrapdb wrapdbF
+  match loadWraps fs 16 [] files dirs wrapdb with
+  | .error e => showErrW e
+  | .ok r0 =>
+    match mergeAll fs (np == "1") wrapdb (parseMerges mergesF) r0 with
+    | .error e => "M" ++ showErrW e
+    | .ok r =>
+      "ok~" ++ ";".intercalate (r.wraps.map (fun e => showPkg e.2)) ++ "~" ++ showTable r.providedDeps ++ "~" ++
+      showTable r.providedPrograms ++ "~" ++ ";".intercalate ((splitNE ";" queries).map (answer r))
+
+end WF
+
 def showPOut : POutcome → String
   | .found d => "found:" ++ encodeStr d.ident
   | .notFound => "notfound"
@@ -249,6 +329,7 @@ def handle (cmd : String) (fs : List String) : String :=
   | "reg", [ops] => handleReg ops
   | "cache", [ops] => CA.handleCache ops
   | "wrap", [cfg, env, faults] => W.handleWrap cfg env faults
+  | "wraps", [listing, fs, wrapdb, merges, np, queries] => WF.handleWraps listing fs wrapdb merges np queries
   | _, _ => "bad-op"
 
 end Driver.DepPolicy
